@@ -42,7 +42,7 @@ def run(tier, replay=None):
     # case
     case_closed_specs(rep)
     results, found = validators.run_all(prog, rep)
-    rep.floor('validators', len(results), 13)
+    rep.floor('validators', len(results), 4)
     c03.extension_type_bytes(prog, rep)
     # separators
     core = entry.core_parser(prog)
